@@ -46,3 +46,22 @@ package dtls
 //@ loop #1: committed-once: ncalls("param.markPacketAsValid") == 1 && ncalls("FragmentBuffer.Push") == 1 && retErr("FragmentBuffer.Push", 2) == nil && retBool("FragmentBuffer.Push", 0) && isLatestSeqNum == retBool("param.markPacketAsValid", 0)
 //@ loop #1: wf-kept: wfConn(c)
 //@ end
+
+// RFC 6347 4.1.2.6: "a minimum window size of 32 MUST be supported, but a window size of 64 is preferred and SHOULD be
+// employed as the default"; a configured window is used as given.
+//@ func effectiveReplayProtectionWindow
+//@ ensures default-is-64: replayProtectionWindow <= 0 ==> result == 64
+//@ ensures configured-is-used: replayProtectionWindow > 0 ==> result == replayProtectionWindow
+//@ end
+
+// RFC 9147 4.2.2: the full record sequence number is the number closest to (highest received + 1) whose low 8 or 16 bits
+// are the bits on the wire. A wrong choice fails decryption, i.e. silently drops a reordered record.
+//@ func reconstructSequenceNumber
+//@ requires range: highest < 1<<48
+//@ ensures low-bits-16: seqBit ==> result & 0xffff == uint64(partial)
+//@ ensures low-bits-8: !seqBit ==> result & 0xff == uint64(partial) & 0xff
+//@ ensures not-too-far-ahead-16: seqBit && result >= 0x10000 ==> result <= highest + 1 + 0x8000
+//@ ensures not-too-far-ahead-8: !seqBit && result >= 0x100 ==> result <= highest + 1 + 0x80
+//@ ensures not-too-far-behind-16: seqBit ==> result + 0x8000 >= highest + 1
+//@ ensures not-too-far-behind-8: !seqBit ==> result + 0x80 >= highest + 1
+//@ end
